@@ -107,6 +107,28 @@ pub fn run(thorough: bool, mut rng: Rng, mut out: Out) {
             Err(e) => out.r(&label, false, &format!("panic {}", e)),
         }
     }
+    // (iii) the counter wraps while operations started through the ordinary API are still running:
+    // searches whose streams are open (started, one entry received, no Done) and single operations
+    // nobody has answered; the table is the library's own (read back through the hook, only the
+    // counter position is moved to N-r).  Same server-side oracle.
+    let nlive = if thorough { 120 } else { 16 };
+    for h in 0..nlive {
+        let searches = rng.range(1, 4) as usize;
+        let singles = rng.below(3) as usize;
+        let per = rng.range(2, 8) as usize;
+        let r = rng.below(3) as i32;
+        let seed = rng.next();
+        let res = guarded(move || history_live(searches, singles, per, r, seed));
+        let label = format!("ids.wrap-with-live-operations searches={} singles={} then={} start_last=N-{}", searches, singles, per, r);
+        out.case(&format!("{} #{}", label, h), true);
+        match res {
+            Ok((ok, detail, n)) => {
+                out.stat_n("live.requests", n as u64);
+                out.r(&label, ok, &detail);
+            }
+            Err(e) => out.r(&label, false, &format!("panic {}", e)),
+        }
+    }
     out.finish("the real msgmap positioned at last in {0,1,2,100,N-2,N-1,N} x in-use sets (empty, singletons, dense runs across the wrap point, random) and random positions; multi-thread bursts from 1..6 cloned handles with a server-side uniqueness oracle; non-trivial = non-empty in-use set / at least 2 requests; distinct by FNV of the request line");
 }
 
@@ -139,6 +161,104 @@ fn read_msg(buf: &mut Vec<u8>) -> Option<(i64, u64)> {
     let optag = (buf[hl + 2 + idlen] & 0x1f) as u64;
     buf.drain(..total);
     Some((id, optag))
+}
+
+fn history_live(searches: usize, singles: usize, per: usize, r: i32, seed: u64) -> (bool, String, usize) {
+    use ldap3::Scope;
+    let rt = tokio::runtime::Builder::new_multi_thread().worker_threads(4).enable_time().build().unwrap();
+    rt.block_on(async move {
+        let (io, net) = simnet::pair();
+        let (conn, ldap) = LdapConnAsync::verif_pair(Box::new(io));
+        tokio::spawn(async move {
+            let _ = conn.drive().await;
+        });
+        let mut rng = Rng(seed);
+        let mut inbuf: Vec<u8> = vec![];
+        let mut outstanding: Vec<i64> = vec![];
+        let mut ok = true;
+        let mut detail = String::new();
+        let mut seen = 0usize;
+        // phase 1: the live operations
+        let mut streams = vec![];
+        for _ in 0..searches {
+            let mut l = ldap.clone();
+            match tokio::time::timeout(std::time::Duration::from_secs(5), l.streaming_search("dc=x", Scope::Subtree, "(a=b)", vec!["cn"])).await {
+                Ok(Ok(st)) => streams.push(st),
+                other => return (false, format!("search did not start: {:?}", other.map(|r| r.map(|_| ()).map_err(|e| e.to_string()))), 0),
+            }
+        }
+        let mut pending = vec![];
+        for _ in 0..singles {
+            let mut l = ldap.clone();
+            pending.push(tokio::spawn(async move {
+                let _ = l.delete("cn=pending").await;
+            }));
+        }
+        let live = searches + singles;
+        let t0 = std::time::Instant::now();
+        while seen < live {
+            if t0.elapsed().as_secs() > 10 {
+                return (false, format!("watchdog: {} of {} live requests seen", seen, live), seen);
+            }
+            inbuf.extend(net.take_written());
+            while let Some((id, _op)) = read_msg(&mut inbuf) {
+                seen += 1;
+                if outstanding.contains(&id) {
+                    ok = false;
+                    detail = format!("id {} reused while still outstanding {:?}", id, outstanding);
+                }
+                outstanding.push(id);
+            }
+            tokio::time::sleep(std::time::Duration::from_micros(200)).await;
+        }
+        let live_ids = outstanding.clone();
+        // phase 2: move the counter to N-r, keep the library's own in-use set
+        let (_, used) = ldap.verif_msgmap();
+        ldap.verif_set_msgmap(N - r, &used);
+        // phase 3: further operations across the wrap point; they are answered, the live ones are not
+        let mut l2 = ldap.clone();
+        let later = tokio::spawn(async move {
+            for _ in 0..per {
+                let _ = l2.delete("cn=x").await;
+            }
+        });
+        let total = live + per;
+        let t1 = std::time::Instant::now();
+        while seen < total || outstanding.len() > live {
+            if t1.elapsed().as_secs() > 20 {
+                ok = false;
+                detail = format!("watchdog: {} of {} requests seen, outstanding {:?}", seen, total, outstanding);
+                break;
+            }
+            inbuf.extend(net.take_written());
+            while let Some((id, _op)) = read_msg(&mut inbuf) {
+                seen += 1;
+                if id < 1 || id > N as i64 {
+                    ok = false;
+                    detail = format!("id {} out of range", id);
+                }
+                if outstanding.contains(&id) {
+                    ok = false;
+                    detail = format!("id {} given to a new request while the operation that owns it is still running (live {:?}, table {:?})", id, live_ids, used);
+                }
+                outstanding.push(id);
+            }
+            // answer one of the later requests (never the live ones)
+            if let Some(pos) = outstanding.iter().position(|x| !live_ids.contains(x)) {
+                if rng.chance(2, 3) || seen >= total {
+                    let id = outstanding.remove(pos);
+                    net.send(&crate::scen::result_frame(id, 11, 1));
+                }
+            }
+            tokio::time::sleep(std::time::Duration::from_micros(200)).await;
+        }
+        let _ = tokio::time::timeout(std::time::Duration::from_secs(5), later).await;
+        drop(streams);
+        for p in pending {
+            p.abort();
+        }
+        (ok, detail, seen)
+    })
 }
 
 fn history(handles: usize, per: usize, start_last: i32, seed: u64) -> (bool, String, usize) {
